@@ -785,8 +785,42 @@ def check_hidden_inverted(ctx, case):
     ctx.nt(('hidden-inverted', how, kind))
 
 
+def check_datatype_order(ctx, case):
+    """a datatype and datatype properties configured together: the properties apply to the configured datatype, in whatever
+    order the entries of the Param are written"""
+    from frappy.core import Module, Parameter, FloatRange, IntRange, StringType
+    kinds = {'double': (lambda: FloatRange(0, 10), lambda: FloatRange(0, 100), {'max': 5, 'unit': 'K'}, 2.0, {'type': 'double', 'min': 0.0, 'max': 5.0, 'unit': 'K'}),
+             'int': (lambda: IntRange(0, 10), lambda: IntRange(0, 100), {'max': 50}, 20, {'type': 'int', 'min': 0, 'max': 50}),
+             'string': (lambda: StringType(0, 10), lambda: StringType(0, 100), {'maxchars': 50}, 'x' * 20, {'type': 'string', 'maxchars': 50})}
+    kind, order = case.get('dt'), case.get('order')
+    if kind not in kinds or order not in ('datatype-first', 'datatype-last', 'datatype-middle'):
+        return
+    ctx.ev()
+    mk_cls, mk_cfg, props, value, want = kinds[kind]
+    cls = type('D', (Module,), {'a': Parameter('a', mk_cls(), default=mk_cls()(1 if kind != 'string' else 'a'), readonly=False)})
+    items = list(props.items())
+    pos = {'datatype-first': 0, 'datatype-last': len(items), 'datatype-middle': 1}[order]
+    items.insert(pos, ('datatype', mk_cfg()))
+    entry = dict(items + [('value', value)])
+    kit = Kit({'d': {'cls': cls, 'description': 'module', 'a': entry}})
+    if kit.errors:
+        ctx.finding(f'valid-config-rejected:datatype-with-properties:{order}', case, repr(kit.errors)[:300])
+        return
+    got = json.loads(json.dumps(kit.describe()))['modules']['d']['accessibles']['_a']['datainfo']
+    if any(got.get(k) != v for k, v in want.items()):
+        ctx.finding(f'configured-datatype-property-lost:{order}', case, f'entries {[k for k, _ in items]!r}: described {got!r}, expected {want!r}')
+    elif rm.canon(kit.modules['d'].a) != rm.canon(value):
+        ctx.finding(f'configured-value-not-applied:datatype-with-properties:{order}', case, repr(kit.modules['d'].a))
+    else:
+        ctx.ok('datatype-and-properties-configured')
+    ctx.nt(('datatype-order', kind, order))
+
+
 def run_shard(ctx, shard):
     if shard['idx'] == 'names':
+        for kind in ('double', 'int', 'string'):
+            for order in ('datatype-first', 'datatype-last', 'datatype-middle'):
+                check_datatype_order(ctx, {'kind': 'datatype-order', 'dt': kind, 'order': order})
         for how in ('exported', 'hidden-class', 'hidden-cfg', 'hidden-module'):
             for kind in ('double', 'string', 'array'):
                 check_hidden_inverted(ctx, {'kind': 'hidden-inverted', 'how': how, 'dt': kind})
@@ -812,6 +846,8 @@ def run_case(ctx, case):
         check_target_range(ctx, case)
     elif case['kind'] == 'hidden-inverted':
         check_hidden_inverted(ctx, case)
+    elif case['kind'] == 'datatype-order':
+        check_datatype_order(ctx, case)
     else:
         if case.get('cfg', {}).get('description') == '':
             return      # (shrinker artefact: an empty description is left out of the description of the node)
